@@ -148,10 +148,6 @@ func evoUnits(id, tier string, seed int64) ([]unit, error) {
 		}
 		u, err := evoPairUnit(src, v2, shards, to)
 		if err != nil {
-			if isF43(err.Error()) && findingKnown("F43") {
-				fmt.Printf("KNOWN-FINDING: property=%s F43 (evolution source %s skipped): code generated from the migrated schema does not compile (dictionary of Maybe)\n", id, src.name)
-				continue
-			}
 			return nil, err
 		}
 		units = append(units, u)
